@@ -43,6 +43,8 @@ class Cfg:
         self.composite_ttc = True
         self.exist_steps = True
         self.inherit_bias = 0.6
+        self.same_field_both_ends = 0.0 # X [f] <-- A --> [f] Y (the class factory cannot represent it: C06 known finding)
+        self.nested_names = 0.25        # asset names that are prefixes of one another (Net / Network), step names that make 'Net'+'workAccess' == 'Network'+'Access'
         self.meta = True
         self.shared_field_names = 0.2   # field names reused across unrelated families
         self.setop_under_collect = 0.3  # collect whose right side is a set operator over two fields
@@ -77,18 +79,33 @@ class LangGen:
         if cfg.large:
             n = rng.randint(10, 16)
         names = rng.sample(ASSET_NAMES, n)
+        chain = rng.choice([8, 11, n - 1])
+        self.nested = []
+        if n >= 2 and rng.random() < cfg.nested_names:
+            for _ in range(rng.randint(1, 2)):
+                i = rng.randrange(1, n)
+                j = rng.randrange(0, i)
+                sfx = rng.choice(['work', 'Group', '2', 'X', 'a', '_'])
+                if names[j] + sfx not in names and not any(names[i] in (a, b) for a, b, _s in self.nested):
+                    names[i] = names[j] + sfx
+                    self.nested.append((names[j], names[i], sfx))
         cats = ['Core'] if rng.random() < 0.6 else ['Core', 'Extra']
         assets = []
         for i, nm in enumerate(names):
             sup = None
             if i > 0 and rng.random() < cfg.inherit_bias:
                 sup = rng.choice(names[:i])
-            if cfg.large and 0 < i <= 8:
-                sup = names[i - 1]          # one chain of depth 8
+            if cfg.large and 0 < i <= chain:
+                sup = names[i - 1]          # one chain of depth 8 - 15
             assets.append({
                 'name': nm, 'meta': self._meta(), 'category': rng.choice(cats),
                 'isAbstract': rng.random() < 0.2, 'superAsset': sup,
                 'variables': [], 'attackSteps': []})
+        for a_name, b_name, _sfx in self.nested:
+            if rng.random() < 0.6 and not cfg.large:
+                # siblings (or both roots)
+                by = {a['name']: a for a in assets}
+                by[b_name]['superAsset'] = by[a_name]['superAsset']
         if all(a['isAbstract'] for a in assets):
             rng.choice(assets)['isAbstract'] = False
         # assets are emitted grouped by category (that is what a MAL file gives)
@@ -124,6 +141,10 @@ class LangGen:
         out = {}
         for k in rng.sample(['user', 'developer', 'modeler'], rng.randint(1, 2)):
             out[k] = rng.choice(['text', 'Some info.', 'a b  c', 'x: y', "it's", 'ünï', '// not a comment', ''])
+            if rng.random() < 0.12:
+                # a MAL string may hold anything but a double quote
+                out[k] = rng.choice(['line1\r\nline2', 'cr\rx', 'two\nlines', 'ff\x0cx', 'nel\x85x', 'ls\u2028x', ' padded ', 'tab\tx', '/* x */',
+                                     'Cafe\u0301', '\ufeffbom', 'back\\slash', 'nbsp\xa0', '\\n'])
         return out
 
     # ------------------------------------------------------------------
@@ -161,12 +182,14 @@ class LangGen:
             lm, rm = rng.choice(MULTS), rng.choice(MULTS)
             lfield, rfield = 'f%d' % fld, 'f%d' % (fld + 1)
             fld += 2
-            if spec['associations'] and rng.random() < cfg.shared_field_names:
+            same_named = [a for a in spec['associations'] if a['name'] == nm]
+            if spec['associations'] and (rng.random() < cfg.shared_field_names or (same_named and rng.random() < 0.4)):
                 # reuse the two field names of an earlier association on
                 # unrelated asset types: legal as long as no asset type ends up
                 # with two fields of the same name (a field is held by the
                 # descendants of the opposite end)
-                other = rng.choice(spec['associations'])
+                # (preferably those of an association with the same name: name and both field names equal, end types differ)
+                other = rng.choice(same_named if same_named and rng.random() < 0.7 else spec['associations'])
                 cand = (other['leftField'], other['rightField']) if rng.random() < 0.7 else (other['rightField'], other['leftField'])
 
                 def holders(fname):
@@ -181,6 +204,9 @@ class LangGen:
                         and cand[0] != cand[1]
                         and not (set(tmp.descendants(l)) & set(tmp.descendants(r)))):
                     lfield, rfield = cand
+            elif rng.random() < cfg.same_field_both_ends and not (set(tmp.descendants(l)) & set(tmp.descendants(r))):
+                # X [f] <-- A --> [f] Y : both ends use the same field name (legal: the two families are disjoint)
+                rfield = lfield
             spec['associations'].append({
                 'name': nm, 'meta': self._meta(),
                 'leftAsset': l, 'leftField': lfield,
@@ -201,6 +227,11 @@ class LangGen:
             a = next(x for x in spec['assets'] if x['name'] == t)
             inh = dict(inherited.get(lang.parent[t], {})) if lang.parent[t] else {}
             steps = []
+            if lang.parent[t] and rng.random() < 0.12:
+                # a sub-type that declares no step of its own ("asset Device extends Base {}")
+                a['attackSteps'] = []
+                inherited[t] = inh
+                continue
             # redefinitions of inherited steps
             for sname, sdef in inh.items():
                 r = rng.random()
@@ -216,6 +247,10 @@ class LangGen:
                         st['tags'] = rng.sample(TAGS, rng.randint(0, 2))
                     if rng.random() < 0.5:
                         st['ttc'] = gen_ttc(rng, cfg) if rng.random() < 0.7 else None
+                if kind == 'override' and st['type'] == 'defense' and rng.random() < 0.6:
+                    # ... for a defense: Enabled <-> Disabled / none
+                    st['ttc'] = rng.choice([{'type': 'function', 'name': 'Enabled', 'arguments': []},
+                                            {'type': 'function', 'name': 'Disabled', 'arguments': []}, None])
                 self.kind[(t, sname)] = kind
                 steps.append(st)
             # new steps
@@ -264,6 +299,20 @@ class LangGen:
                 elif self.kind[(t, st['name'])] == 'override':
                     inh2[st['name']] = copy.deepcopy(st)
             inherited[t] = inh2
+        # concatenation clashes: A = 'Net', B = 'Network' with a step S: A also gets a step 'work'+S
+        self.clash_steps = []
+        by = {a['name']: a for a in spec['assets']}
+        for a_name, b_name, sfx in getattr(self, 'nested', []):
+            own = [st for st in by[b_name]['attackSteps'] if st['type'] in ('or', 'and')]
+            if not own or rng.random() < 0.3 or not sfx[0].isalpha():
+                continue
+            new = sfx + rng.choice(own)['name']
+            if any(st['name'] == new for a in spec['assets'] for st in a['attackSteps']):
+                continue
+            by[a_name]['attackSteps'].append({'name': new, 'meta': {}, 'type': 'or', 'tags': [], 'risk': None,
+                                              'ttc': None, 'requires': None, 'reaches': None})
+            self.kind[(a_name, new)] = 'override'
+            self.clash_steps.append((a_name, new))
 
     # ------------------------------------------------------------------
     def _gen_variables(self):
@@ -311,7 +360,8 @@ class LangGen:
                         # nothing navigable here: make it an ordinary step
                         st['type'] = 'or'
                         st['requires'] = None
-                if inh is not None and st['type'] == 'defense':
+                if inh is not None and st['type'] == 'defense' and kind != 'override':
+                    # a re-declaration that replaces ('->') may flip Enabled / Disabled; the others keep the ancestor's
                     st['ttc'] = copy.deepcopy(inh['ttc'])
                 if kind == 'none':
                     st['reaches'] = None
@@ -325,6 +375,14 @@ class LangGen:
                     st['reaches'] = None
                     continue
                 st['reaches'] = {'overrides': kind == 'override', 'stepExpressions': exprs}
+        for a_name, new in getattr(self, 'clash_steps', []):
+            a = next(x for x in spec['assets'] if x['name'] == a_name)
+            others = [st for st in a['attackSteps'] if st['name'] != new]
+            if others:
+                st = rng.choice(others)
+                if not st['reaches']:
+                    st['reaches'] = {'overrides': False, 'stepExpressions': []}
+                st['reaches']['stepExpressions'].append({'type': 'attackStep', 'name': new})
 
     def _inherited(self, t, sname):
         p = self.lang.parent[t]
